@@ -200,8 +200,11 @@ class TypeDB:
         # several repo classes -> their common base
         if len(non_none) > 1 and all(isinstance(t, TObj) for t in non_none):
             cb = non_none[0].cls
-            for t in non_none[1:]:
-                cb = self.common_base(cb, t.cls)
+            try:
+                for t in non_none[1:]:
+                    cb = self.common_base(cb, t.cls)
+            except Unsupported:
+                cb = "*"  # unrelated classes: any reference, discriminated by the class tag
             non_none = [TObj(cb)]
         if len(non_none) == 1:
             return TOpt(non_none[0]) if has_none else non_none[0]
@@ -210,6 +213,8 @@ class TypeDB:
         return TUnion(non_none + ([TNone] if has_none else []))
 
     def common_base(self, a: str, b: str) -> str:
+        if a == "*" or b == "*":
+            return "*"
         ma = self.w.mro(a)
         mb = self.w.mro(b)
         for c in ma:
